@@ -702,6 +702,8 @@ func genH2Cases(r *hk.Rand, quick bool, add func(*Case)) {
 		add(genH2Structured(r))
 	}
 	genH2WindowCases(r, quick, add)
+	genH2LimitCases(r, quick, add)
+	genH2GoAwayCases(r, quick, add)
 }
 
 // how the peer opens a stream's send window that its SETTINGS had set to zero: the request body
@@ -746,6 +748,101 @@ func genH2WindowCases(r *hk.Rand, quick bool, add func(*Case)) {
 			}
 			c.Rounds = []Round{{Steps: steps, End: "fin"}}
 			add(c)
+		}
+	}
+}
+
+// the header-list limit configured in every way the library offers x a list under / over / far over
+// it x the first connection of the transport or a later exchange: over the limit must be refused
+func genH2LimitCases(r *hk.Rand, quick bool, add func(*Case)) {
+	const limit = 4096
+	lists := []struct {
+		name   string
+		n, val int
+		cont   bool
+		expect string
+	}{
+		{"under", 8, 100, false, "response"},
+		{"over", 60, 200, false, "error"},
+		{"far-over-in-continuations", 120, 300, true, "error"},
+	}
+	for _, via := range []string{"", "settings-frame", "settings-frame-with-others"} {
+		for _, l := range lists {
+			for _, pre := range []int{0, 1} {
+				if quick && pre == 1 && l.name == "far-over-in-continuations" {
+					continue
+				}
+				sid := uint32(1 + 2*pre)
+				fields := []hf{{":status", "200"}, {"content-length", "2"}}
+				for i := 0; i < l.n; i++ {
+					fields = append(fields, hf{fmt.Sprintf("x-h%d", i), strings.Repeat("v", l.val)})
+				}
+				var head []byte
+				blk := hpackBlock(fields)
+				if l.cont {
+					head = rawFrame(fHeaders, 0, sid, blk[:1000])
+					rest := blk[1000:]
+					for len(rest) > 8000 {
+						head = append(head, rawFrame(fCont, 0, sid, rest[:8000])...)
+						rest = rest[8000:]
+					}
+					head = append(head, rawFrame(fCont, 4, sid, rest)...)
+				} else {
+					head = rawFrame(fHeaders, 4, sid, blk)
+				}
+				vn := via
+				if vn == "" {
+					vn = "setter"
+				}
+				c := &Case{Kind: "h2", Method: "GET", Shape: fmt.Sprintf("h2:header-list-%s-limit-via-%s-pre%d", l.name, vn, pre), Pre: pre, Expect: l.expect}
+				c.Opts = Opts{DisableAutoDecode: true, TimeoutMs: 2000, H2MaxHeaderList: limit, H2LimitVia: via}
+				steps := []H2Step{{Data: cat(settingsFrame(), settingsAck())}}
+				if pre == 1 {
+					steps = append(steps, H2Step{Wait: "headers", Data: cat(headersFrame(1, okHeaders(hf{"content-length", "2"}), false, true), dataFrame(1, []byte("ok"), true))})
+				}
+				steps = append(steps, H2Step{Wait: "headers", Data: cat(head, dataFrame(sid, []byte("hi"), true))})
+				for i := range steps {
+					steps[i].Hex = capHex(steps[i].Data)
+				}
+				c.Rounds = []Round{{Steps: steps, End: "fin"}}
+				add(c)
+			}
+		}
+	}
+}
+
+// two (or three) GOAWAY frames on one connection: every combination of error codes, with and
+// without debug text, the request's stream inside the announced range; the connection then ends
+func genH2GoAwayCases(r *hk.Rand, quick bool, add func(*Case)) {
+	codes := []uint32{0, 2, 11}
+	for _, a := range codes {
+		for _, b := range codes {
+			for v := 0; v < 3; v++ {
+				if quick && v == 2 && a != 11 {
+					continue
+				}
+				fs := []GoAwayF{{Last: 0x7fffffff, Code: a, Debug: "first"}, {Last: 1, Code: b, Debug: "second"}}
+				switch v {
+				case 1:
+					fs[0].Debug = ""
+				case 2:
+					fs = append(fs, GoAwayF{Last: 1, Code: hk.Pick(r, codes), Debug: "third"})
+				}
+				var data []byte
+				for _, f := range fs {
+					data = append(data, rawFrame(fGoAway, 0, 0, cat(u32(f.Last), u32(f.Code), []byte(f.Debug)))...)
+				}
+				respond := v == 0 && r.Chance(40)
+				if respond {
+					data = cat(data, headersFrame(1, okHeaders(), false, true), dataFrame(1, []byte("x"), true))
+				}
+				c := &Case{Kind: "h2", Method: hk.Pick(r, []string{"GET", "POST"}), Shape: fmt.Sprintf("h2:goaway-sequence-%d-%d-v%d", a, b, v), Opts: Opts{DisableAutoDecode: true, TimeoutMs: 1500}}
+				if !respond {
+					c.GoAways = fs
+				}
+				c.Rounds = []Round{{Data: cat(settingsFrame(), settingsAck(), data), End: "fin"}}
+				add(c)
+			}
 		}
 	}
 }
